@@ -232,7 +232,7 @@ def outputs(cpu, undef, with_fp, x87=None):
 def run_instances(sh, insts, nstates, seed):
     from miasmx.arch.ia32_arch import x86mnemo
     from miasmx.core.bin_stream import bin_stream
-    asm = gnuref.gas([i['text'] for i in insts], 'intel')
+    asm = c04.assemble(insts)
     plan = []          # (inst, code, ins, base state, list of (location, perturbed state))
     cases = []
     for inst, (g, msg) in zip(insts, asm):
@@ -498,7 +498,7 @@ def run_mode16(sh):
         if i32 is None or i16 is None or i32.l != len(b32) or i16.l != len(b16):
             sh.counters['mode16_not_decoded(C01/C10)'] += 1
             continue
-        regs = dict((r, 0x1000 + 16 * k) for k, r in enumerate(O.REGS))
+        regs = dict((r, ((0xa5c30000 + 0x01010000 * k) & 0xffff0000) | (0x1000 + 16 * k)) for k, r in enumerate(O.REGS))      # upper halves set: 16- and 32-bit addresses differ
         flags = dict((f, 0) for f in FLAGS)
         try:
             r32 = reported_sets(i32, regs, flags, b'')
@@ -514,7 +514,7 @@ def run_mode16(sh):
             sh.violation('mode16/%s/%d/lift-raises:%s' % (fam, inst['size'], type(e).__name__), '%s: %s lifts in 32-bit code, %s decoded for a 16-bit code segment raises %r' % (inst['text'], b32.hex(), b16.hex(), e), wit)
             continue
         sh.case(('mode16', inst['text']), True, cls='%s/%s/mode16' % (inst['mn'], inst['form']))
-        for what, a, b in (('read', r32[0], r16[0]), ('write', r32[2], r16[2])):
+        for what, a, b in (('read', r32[0], r16[0]), ('write', r32[2], r16[2]), ('read-cells', r32[1], r16[1]), ('written-cells', r32[3], r16[3])):
             a, b = set(a) - set(['eip']), set(b) - set(['eip'])
             if b < a or (a - b):
                 sh.violation('mode16/%s/%d/%s-set-smaller' % (fam, inst['size'], what), '%s: %s in 32-bit code has %s set %s, %s in a 16-bit code segment (the same instruction) has %s' % (
